@@ -353,6 +353,7 @@ def solve_main(objfun, x0, argsf, xl, xu, projections, npt, rhobeg, rhoend, maxf
             d, gopt, H, gnew, crvmin = control.trust_region_step(params, criticality_measure)
             try:
                 tau = min(criticality_measure/(LA.norm(gopt)+lh), 1.0)
+                tau = max(tau, 1.0e-16)  # the criticality measure can round to zero, and delta is divided by tau below
             except ValueError:
                 # In some instances, gopt can have nan/inf values -- this ultimately calls a safety step and is generally fine
                 # but we need to set a value for tau nonetheless
@@ -658,6 +659,7 @@ def solve_main(objfun, x0, argsf, xl, xu, projections, npt, rhobeg, rhoend, maxf
                     control.delta = min(params("tr_radius.gamma_dec") * control.delta, dnorm) / tau
                 else:
                     control.delta = min(params("growing.gamma_dec") * control.delta, dnorm) / tau  # different gamma_dec
+                control.delta = min(control.delta, 1.0e10)  # tau can be tiny (regularised problems): same cap as for very successful steps
                 if params("logging.save_diagnostic_info"):
                     diagnostic_info.update_iter_type(ITER_ACCEPTABLE_NO_GEOM if ratio > 0.0
                                                      else ITER_UNSUCCESSFUL_NO_GEOM)  # we flag geom update below
